@@ -27,18 +27,32 @@ _counter = [0]
 COMP_TYPES = ['verif_fixtures.Plain', 'verif_fixtures.Plain2',
               'verif_fixtures.Listener', 'verif_fixtures.LoadOnly',
               'verif_fixtures.Outer.Inner', 'verif_fixtures.sub.SubComp',
-              'verif_fixtures.make_comp', 'verif_fixtures.legacy.Thing']
+              'verif_fixtures.make_comp', 'verif_fixtures.legacy.Thing',
+              'verif_fixtures.Mutating']
 PROC_TYPES = ['verif_fixtures.Proc1', 'verif_fixtures.ProcEarly',
               'verif_fixtures.ProcLate']
 OBJ_REFS = ['verif_fixtures.OBJ', 'verif_fixtures.Outer.Inner',
             'verif_fixtures.sub.SubComp', 'verif_fixtures.NUM',
             'verif_fixtures.func', 'verif_fixtures.Outer.VALUE',
             'verif_fixtures.sub.SUB_OBJ', 'verif_fixtures.TEXT',
-            'verif_fixtures.legacy.VALUE', 'verif_fixtures.legacy.NUM']
+            'verif_fixtures.legacy.VALUE', 'verif_fixtures.legacy.NUM',
+            # importable names whose objects cannot be copied: a module, a
+            # lock, a generator, an object that refuses
+            'verif_fixtures.sub', 'verif_fixtures.LOCK', 'verif_fixtures.GEN',
+            'verif_fixtures.NOCOPY', 'json', 'os.path']
 PLAIN_STRINGS = ['hello', ' spaced ', '', 'a$b', 'x ${verif_fixtures.OBJ} y',
                  'see $res{a}', ' ${verif_fixtures.OBJ}', '$ {x}', '$res',
                  '${}', '$RES{a}', '$handle', '$res{}', '$', '{a}', '}{',
                  'tail $handle{a}', '$$', 'res{a}', '\t${x}']
+
+
+def _typed(v):
+    """Type- and sign-exact rendering of a JSON value (True / 1 / 1.0 and
+    0.0 / -0.0 compare equal in Python)."""
+    try:
+        return json.dumps(v, sort_keys=True)
+    except (TypeError, ValueError):
+        return repr(v)
 
 
 def resolve(name):
@@ -93,7 +107,7 @@ class Interp:
 
             def load(self):
                 self.loads += 1
-                return ['resource', self.name, self.loads]
+                return ('resource', self.name, self.loads)
 
         self.root = d.ResourceMap()
         self.res = {}
@@ -151,7 +165,7 @@ class Interp:
                 self.fail('reference', f'{where}: got {got!r}, expected the '
                           f'loaded resource of {v!r}')
         else:
-            if type(got) is not type(v) or got != v:
+            if type(got) is not type(v) or got != v or _typed(got) != _typed(v):
                 kind = 'passthrough_changed' if isinstance(v, str) else \
                     'args'
                 self.fail(kind, f'{where}: got {got!r}, expected {v!r} '
@@ -424,7 +438,8 @@ def execute(scenario, prop, tolerate=frozenset()):
 def gen_json(rng, depth=0):
     r = rng.random()
     if r < .3 or depth >= 2:
-        scalars = [0, 1, -3, 2.5, True, False, None, 'txt', '']
+        scalars = [0, 1, -3, 2.5, True, False, None, 'txt', '', 1.0, 0.0, -0.0,
+                   2 ** 53 + 1, 1e100, -1, -1.0]
         if depth >= 1:      # markers nested in containers pass through
             scalars += ['${verif_fixtures.OBJ}', '$res{a}', '$handle{a}']
         return rng.choice(scalars)
@@ -440,6 +455,8 @@ def gen_arg(rng, resources, refs_ok=True):
         r = r * .5
     if r < .25:
         return rng.choice(PLAIN_STRINGS)
+    if r < .33:         # values that are == but not the same JSON value
+        return rng.choice([True, 1, 1.0, False, 0, 0.0, -0.0])
     if r < .5:
         return gen_json(rng)
     if r < .7:
@@ -506,9 +523,11 @@ def generate(prop, run_seed, tier='quick', tolerate=frozenset()):
     ops = [['write', gen_desc(rng, resources)], ['load'], ['enable']]
     for _ in range(crng.choice([0, 0, 1, 2])):
         r = rng.random()
-        if r < .5:
+        if r < .35:
             ops += [['clear'], ['write', gen_desc(rng, resources)], ['load'],
                     ['enable']]
+        elif r < .5:    # the same file again, untouched
+            ops += [['clear'], ['load'], ['enable']]
         elif r < .7 and resources:
             ops += [['clear_res', rng.choice(resources)], ['clear'],
                     ['load'], ['enable']]
